@@ -237,7 +237,7 @@ func (eng *Engine) checkProperty(id, tier string, timeoutFlag, workers int, keep
 	}
 	to := cfg.TimeoutQuick
 	if to == 0 {
-		to = 10
+		to = 25 // every claimed obligation discharges in a few seconds; the margin absorbs machine load
 	}
 	if tier == "thorough" {
 		to = cfg.TimeoutThorough
